@@ -76,7 +76,15 @@ func checkC13(c *Ctx) {
 		Run:    SymRun{Harness: "VerifC13CharLit", LoopBound: 24, InitExtra: extra, Intrinsics: c13Stubs, Prune: true},
 		Bounds: "every printable ASCII character: literal, \\x, octal, \\u and \\U spelling",
 	})
-	c.BoundsText = append(c.BoundsText, "scanner/literal level only: the real scanner.Init/next/Scan/skipWhitespace/scanComment/scanChar/scanString/scanRawString/scanEscape, ast.NewStringLit and util.LitToRune; (i) any non-empty layout between two texts gives the same (type, text) token sequence as a single space, leading layout is invisible; (ii) \"c\" and `c` are one string_lit each with the same value; (iii) the five spellings of a character are one char_lit each with the same code point (values for all valid literals: C20)",
-		"outside the claim: that nothing but token types/texts and literal values flows into the generated files (an information-flow fact, not a solver query); byte identity of whole generated packages; non-ASCII text (unicode tables)")
+	for r, what := range []string{"U+0080..U+00FF: raw UTF-8, \\x, octal, \\u, \\U", "U+0100..U+FFFF without surrogates: raw UTF-8, \\u, \\U"} {
+		jobs = append(jobs, Job{
+			Name:   fmt.Sprintf("char spellings wide range=%d", r),
+			Target: t,
+			Run:    SymRun{Harness: "VerifC13CharLitWide", Params: map[string]int{"RANGE": r}, LoopBound: 24, InitExtra: extra, Intrinsics: c13Stubs, Prune: true},
+			Bounds: "every code point in " + what,
+		})
+	}
+	c.BoundsText = append(c.BoundsText, "scanner/literal level only: the real scanner.Init/next/Scan/skipWhitespace/scanComment/scanChar/scanString/scanRawString/scanEscape, ast.NewStringLit and util.LitToRune; (i) any non-empty layout between two texts gives the same (type, text) token sequence as a single space, leading layout is invisible; (ii) \"c\" and `c` are one string_lit each with the same value; (iii) the spellings of a character (ASCII: five; U+0080..U+00FF: five incl. raw UTF-8; U+0100..U+FFFF: raw UTF-8, \\u, \\U) are one char_lit each with the same code point (values for all valid literals: C20)",
+		"outside the claim: that nothing but token types/texts and literal values flows into the generated files (an information-flow fact, not a solver query); byte identity of whole generated packages; non-ASCII text outside character literals (unicode tables); code points above U+FFFF")
 	c.RunJobs(filterJobs(jobs), 4)
 }
